@@ -65,6 +65,30 @@ Definition corpus : list (string * (style * prog)) :=
     ("iterate-out-of-try",
      (sq, [IStmt (SFor (mi 0) (mi 1) [STry [SPrint [ELoc 0]; SIterate] [(0, [])]; SPrint [ELit (LStr "not reached")]]);
            IStmt (SPrint [ELit (LStr "end")])]));
+    (* inside a function: an exit whose condition is an `if` expression holding a short-circuit
+       `or`; the constant first used in the skipped operand is left uninitialised and its next
+       use (the exit value) crashes *)
+    ("exit-condition-shortcircuit-skipped-first-use",
+     (sq, [IFun (mkFun 1 [TBool; TBool] TBool []
+                       [SExitV (EIf (ELoc 1) (EOr (ELoc 0) (ELit (LBool false))) (ELoc 0)) (ELit (LBool false));
+                        SPrint [ELit (LStr "x")]]
+                       (ELit (LBool false)) false 0);
+           IStmt (SPrint [ECall 1 [ELit (LBool true); ELit (LBool true)]]);
+           IStmt (SPrint [ELit (LStr "end")])]));
+    (* the compiler itself crashes (segmentation violation while compiling) when the left operand
+       of `and` is an `if` expression whose branch is a short-circuit expression *)
+    ("and-of-if-with-shortcircuit-branch",
+     (sq, [IFun (mkFun 1 [TBool; TBool] TBool [] []
+                       (EAnd (EIf (ELoc 0) (EAnd (ELoc 0) (ELoc 1)) (ELoc 0)) (ELoc 1)) true 0);
+           IStmt (SPrint [ECall 1 [ELit (LBool true); ELit (LBool true)]])]));
+    (* a function whose own `try` has caught an exception is called inside a `try`; the next
+       exception thrown to that outer `try` crashes (both routes) *)
+    ("catch-in-callee-then-throw-to-caller",
+     (sq, [IFun (mkFun 1 [] TBool []
+                       [STry [SThrow 1] [(1, [SPrint [ELit (LStr "inner")]])]]
+                       (ELit (LBool true)) false 0);
+           IStmt (STry [SPrint [ECall 1 []]; SThrow 0] [(0, [SPrint [ELit (LStr "caught")]])]);
+           IStmt (SPrint [ELit (LStr "end")])]));
     (* sanity entries that must agree *)
     ("iterate-in-for",
      (sq, [IVar TMI (mi 0);
